@@ -227,5 +227,5 @@ ImplInv ==
     \* after the repair nothing is left behind
     /\ (~LeakOnFail => leaked = {})
 
-View == <<ppvars, cursor, udpB, tcpB, ent, leaked, names, nin>>
+View == <<ppvars, ivars>>
 =============================================================================
